@@ -117,6 +117,7 @@ func (st *Stack) boot(ctx context.Context) error {
 	if err := st.life.Init(ctx); err != nil {
 		return cerrors.Errorf("lifecycle init: %w", err)
 	}
+	st.w.bootOK[st.inc] = true
 	return nil
 }
 
